@@ -53,6 +53,21 @@ CHECKS = {
             "relocation and description round trip are finite forks over stated cases on the real code (concrete).",
             "z3; semver parse; pre-release tags outside; pydantic-core JSON not symbolically executed",
             "DESIGN.md 3/C20"),
+    "C04": ("symx",
+            "inductive step on the real merge/write_config/filler code with unbounded symbolic shard counts (z3, memdocs)",
+            "For every (pre-state shape, session kind) of a bounded shape family the invariant Inv and exactness of all totals are "
+            "proved by z3 for ALL example counts (one symbolic path each); histories of any length follow by induction over "
+            "sessions. 'Count recorded == decodable examples' and file placement are grounded by the C08 history exploration "
+            "on real files with an independent audit.",
+            "z3; memdocs shim (dump/load identity, hash tokens injective); shape family depth<=4, <=2 children; one live handle",
+            "DESIGN.md 3/C04"),
+    "C08": ("symx",
+            "bounded symbolic execution of complete writing histories through the public API on real files (E symbolic, history solver-forked)",
+            "Every history of <=2 (quick) / <=3 (thorough) sessions over {root, sub-dir, reused/nested sub-dir, multi-writer x1/x2} x "
+            "splits x sizes x reopen-or-keep is explored; after each session the iterated multiset, check(), an independent "
+            "metadata audit and memory==disk are asserted, for all examples_per_shard values on the path.",
+            "z3; real fb writer/reader; single_process=True for the multi-writer call; one live handle",
+            "DESIGN.md 3/C08"),
 }
 
 PENDING_REASON = "check not built yet in this round (work in progress; see DESIGN.md section 3 for the planned encoding)"
